@@ -117,6 +117,57 @@ UNITS += [
         }),
 """),
 ]
+
+RIX = "crates/core/src/commands/repair/index.rs"
+UNITS += [
+    Unit(name="repair_index_check_pack", file=RIX, anchor="fn check_pack(&mut self, indexfile: IndexFile, read_all: bool) -> (IndexFile, bool)", within="impl PackChecker {", ret_name="r",
+         wrap_open="impl PackChecker {", wrap_close="}",
+         functions=["commands::repair::index::PackChecker::check_pack"],
+         rewrites=[R_LOG,
+                   Rw("for (p, to_delete) in indexfile.all_packs() {", "let ghost f0 = indexfile; let ghost pk0 = self.packs@; let vall = indexfile.all_packs(); for e in it: vall.iter() { let (p, to_delete) = (vclone_ipack(&e.0), e.1);", why="iterator chain -> vector; by-value items -> clone; Verus for-loop syntax"),
+                   Rw("Some(PackHeaderRef::from_index_pack(&p).size()),", "Some(vheader_size_of(&p)),", why="PackHeaderRef::size (unit of C08) -> stub"),
+         ],
+         contract="""
+    ensures
+        // repairing the index of an undamaged repository changes nothing: a file all of whose packs exist (once) with the
+        // indexed size is returned unchanged -- same packs, same sections, same order -- and nothing is queued for re-reading
+        /*@sound_index_file_is_left_alone*/ !read_all && file_is_sound(indexfile, old(self).packs@) ==> !r.1 && r.0.packs@ == indexfile.packs@ && r.0.packs_to_delete@ == indexfile.packs_to_delete@
+            && final(self).packs_to_read@ == old(self).packs_to_read@,
+        // in general entries are only dropped, never invented, and each section only keeps its own packs
+        /*@only_drops_entries*/ r.0.packs@.len() <= indexfile.packs@.len() && r.0.packs_to_delete@.len() <= indexfile.packs_to_delete@.len(),
+        /*@unchanged_means_identical*/ !r.1 ==> r.0.packs@ == indexfile.packs@ && r.0.packs_to_delete@ == indexfile.packs_to_delete@,
+""",
+         loops={1: """
+            invariant
+                vall@ == all_packs_spec(f0), f0 == indexfile,
+                // the packs still in the listing are those of the start minus the ids seen so far
+                forall|id: PackId| #![trigger self.packs@.dom().contains(id)] self.packs@.dom().contains(id) ==> pk0.dom().contains(id) && self.packs@[id] == pk0[id],
+                forall|id: PackId| #![trigger pk0.dom().contains(id)] pk0.dom().contains(id) && !self.packs@.dom().contains(id) ==> exists|j: int| 0 <= j < it.index@ && (#[trigger] vall@[j]).0.id == id,
+                forall|id: PackId| #![trigger pk0.dom().contains(id)] pk0.dom().contains(id) && (forall|j: int| 0 <= j < it.index@ ==> (#[trigger] vall@[j]).0.id != id) ==> self.packs@.dom().contains(id),
+                // nothing dropped so far <=> new_index is exactly the prefix, split by section
+                !changed ==> new_index.packs@ == f0.packs@.subrange(0, if it.index@ <= f0.packs@.len() { it.index@ } else { f0.packs@.len() as int })
+                    && new_index.packs_to_delete@ == f0.packs_to_delete@.subrange(0, if it.index@ <= f0.packs@.len() { 0 } else { it.index@ - f0.packs@.len() })
+                    && self.packs_to_read@ == old(self).packs_to_read@,
+                new_index.packs@.len() <= (if it.index@ <= f0.packs@.len() { it.index@ } else { f0.packs@.len() as int }),
+                new_index.packs_to_delete@.len() <= (if it.index@ <= f0.packs@.len() { 0 } else { it.index@ - f0.packs@.len() }),
+                !read_all && file_is_sound(f0, pk0) ==> !changed,
+"""},
+         hints=[("loop_start", "1", """            proof {
+                let k = it.index@;
+                assert(vall@[k] == *e);
+                if k < f0.packs@.len() { assert(f0.packs@.subrange(0, k + 1) =~= f0.packs@.subrange(0, k).push(f0.packs@[k])); }
+                if k >= f0.packs@.len() {
+                    let m = k - f0.packs@.len();
+                    assert(f0.packs_to_delete@.subrange(0, m + 1) =~= f0.packs_to_delete@.subrange(0, m).push(f0.packs_to_delete@[m]));
+                    assert(f0.packs@.subrange(0, f0.packs@.len() as int) =~= f0.packs@);
+                }
+            }"""),
+                ("after_loop", "1", """        proof {
+            assert(f0.packs@.subrange(0, f0.packs@.len() as int) =~= f0.packs@);
+            assert(f0.packs_to_delete@.subrange(0, f0.packs_to_delete@.len() as int) =~= f0.packs_to_delete@);
+        }""")],
+         ),
+]
 KANI = []
 META = {"not_covered": [
     "merge (blob::tree::merge_trees / merge_nodes): local trait impls, BinaryHeap, `&impl Fn` parameters, mutual recursion",
